@@ -12,9 +12,9 @@ import (
 
 func init() {
 	register("C02", checkC02)
-	notDecided["C02"] = "the result node-sets of predicate-bearing paths; nested predicates over arbitrary trees; that position() counts along the axis direction (this is the direction of the axis normaliser, decided under C01 R01.2). Known finding K1: predicates are evaluated on the merged node-set of a step, not per context node."
+	notDecided["C02"] = "the result node-sets of predicate-bearing paths; nested predicates over arbitrary trees; that position() counts along the axis direction (this is the direction of the axis normaliser, decided under C01 R01.2). (K1 — predicates evaluated on the merged node-set of a step instead of per context node — was repaired in /repo by commit 575c3ed; R02.6 holds since.)"
 	register("C18", checkC18)
-	notDecided["C18"] = "the set equation P/R = union of R(n) on concrete documents (it fails for positional predicates: known finding K1); results of sub-queries for concrete nodes."
+	notDecided["C18"] = "the set equation P/R = union of R(n) on concrete documents (it failed for positional predicates until fix 575c3ed, see R02.6); results of sub-queries for concrete nodes."
 }
 
 // intOffset: v = base + c for a constant c (through integer conversions and additions).
@@ -780,27 +780,68 @@ func checkC18(w *World) {
 	docRule(P, "R18.2", "F", "every axis selector is a loop over the incoming node-set whose contribution depends on the loop element only: the accumulator is appended to, never read, before normalisation; steps thread the node-set left to right (C02 R02.4).")
 	docRule(P, "R18.3", "F", "Unmarshal evaluates a field's tag with Exec(node of the struct, compiled tag, the caller's settings): the cursor passed is the single node of the node-set being unmarshalled, not the root.")
 	docRule(P, "R18.4", "D", "a function call used as a step receives the handler's own context (current node-set and position), see C11 R11.5.")
-	docRule(P, "R18.5", "structural", "composition law for positional predicates: see C02 R02.6 (known finding K1).")
+	docRule(P, "R18.5", "structural", "composition law for positional predicates: see C02 R02.6 (the former finding K1, repaired by 575c3ed).")
 	exec := w.member("exec", "Exec")
 	if exec == nil {
 		w.undecided(P, "R18.1", "exec.Exec", 0, "not found")
 		return
 	}
+	// the context is allocated in Exec itself or in a constructor it calls (whose parameters are then read
+	// through the call's arguments)
 	var ctxAlloc *ssa.Alloc
-	allInstrs(exec, func(in ssa.Instruction) {
-		if al, ok := in.(*ssa.Alloc); ok && types.Identical(al.Type().(*types.Pointer).Elem(), r.CtxType) {
-			ctxAlloc = al
-		}
-	})
+	findAlloc := func(fn *ssa.Function) *ssa.Alloc {
+		var out *ssa.Alloc
+		allInstrs(fn, func(in ssa.Instruction) {
+			if al, ok := in.(*ssa.Alloc); ok && types.Identical(al.Type().(*types.Pointer).Elem(), r.CtxType) {
+				out = al
+			}
+		})
+		return out
+	}
+	ctxAlloc = findAlloc(exec)
+	cursor := ssa.Value(exec.Params[0])
+	subst := map[ssa.Value]ssa.Value{} // constructor parameter -> argument in Exec
+	if ctxAlloc == nil {
+		allInstrs(exec, func(in ssa.Instruction) {
+			c, ok := in.(*ssa.Call)
+			if !ok || ctxAlloc != nil {
+				return
+			}
+			g := staticCallee(c)
+			if g == nil || fnPkgKey(g) != "exec" || g.Signature.Results().Len() != 1 {
+				return
+			}
+			rt := g.Signature.Results().At(0).Type()
+			if pt, ok := rt.(*types.Pointer); ok {
+				rt = pt.Elem()
+			}
+			if !types.Identical(rt, r.CtxType) {
+				return
+			}
+			if al := findAlloc(g); al != nil {
+				ctxAlloc = al
+				for i, p := range g.Params {
+					if i < len(c.Call.Args) {
+						subst[p] = c.Call.Args[i]
+					}
+				}
+			}
+		})
+	}
 	if ctxAlloc == nil {
 		w.undecided(P, "R18.1", "exec.Exec", exec.Pos(), "no evaluation context allocated")
 		return
 	}
-	cursor := ssa.Value(exec.Params[0])
+	resolve := func(v ssa.Value) ssa.Value {
+		if a, ok := subst[v]; ok {
+			return a
+		}
+		return v
+	}
 	fields := map[int]ssa.Value{}
 	for _, st := range storesInto(ctxAlloc) {
 		if fa, ok := st.Addr.(*ssa.FieldAddr); ok && fa.X == ssa.Value(ctxAlloc) {
-			fields[fa.Field] = st.Val
+			fields[fa.Field] = resolve(st.Val)
 		}
 	}
 	w.check(P, "R18.1", "Exec: root is the given cursor", exec.Pos(), fields[r.CtxRootField] == cursor, "root field initialised from the cursor parameter")
@@ -809,7 +850,7 @@ func checkC18(w *World) {
 		if sl, ok := stripConv(v).(*ssa.Slice); ok {
 			if arr, ok := sl.X.(*ssa.Alloc); ok {
 				el := storesInto(arr)
-				if at, ok := arr.Type().(*types.Pointer).Elem().(*types.Array); ok && at.Len() == 1 && len(el) == 1 && el[0].Val == cursor {
+				if at, ok := arr.Type().(*types.Pointer).Elem().(*types.Array); ok && at.Len() == 1 && len(el) == 1 && resolve(el[0].Val) == cursor {
 					oneNode = true
 				}
 			}
